@@ -21,6 +21,11 @@ class IR:
         self.by_short = {}
         for f in d["funcs"]:
             self.by_short.setdefault(f["short"], f)
+        self.by_alias = {}
+        import re as _re
+        for f in d["funcs"]:
+            a = _re.sub(r"[A-Za-z0-9_\-\.]+/", "", f["short"])
+            self.by_alias.setdefault(a, []).append(f)
         self.globals = {g["name"]: g for g in d["globals"]}
         self.consts = {c["name"]: c for c in d["consts"]}
         self.contracts = d["contracts"] or []
